@@ -276,7 +276,7 @@ def _own_checksum(modname, o):
     """the InvalidChecksum was raised by the module itself or by a generic algorithm it calls directly
     (not by another number module such as a national IBAN validator or an embedded number)"""
     own = _chk.relfile(modname)
-    return all(f == own for f in o[3]) if modname not in common.GENERIC_MODULES else True
+    return all(f == own for f in _chk.owner_files(o)) if modname not in common.GENERIC_MODULES else True
 
 
 def complete(mod, projs, n):
@@ -470,7 +470,7 @@ def module_job(arg):
             col.add(_chk.make_case(
                 modname, 'validate', [comp], _chk.fmt_outcome(o),
                 'accepted or a non-checksum ValidationError: check generated by %s' % ', '.join(p['gen'] for p in used),
-                o[2], 'c: payload + generated check is never a checksum error', kwargs=kw, projections=used))
+                _chk.site(o), 'c: payload + generated check is never a checksum error', kwargs=kw, projections=used))
         elif o[0] == 'verr':
             dist['c_rejected_other_validation_error'] += 1
         else:
@@ -567,7 +567,7 @@ def replay(case):
                 return None
             if not all(holds(mod, p, v) for p in case['projections'] if applies(p, v)):
                 return None
-            return dict(case, observed=_chk.fmt_outcome(o), site=o[2])
+            return dict(case, observed=_chk.fmt_outcome(o), site=_chk.site(o))
         # b, and a/valid-number-without-generated-check: the variant is accepted although the generator disagrees
         if o[0] != 'ok':
             return None
